@@ -13,6 +13,7 @@ from .numpy_vjps import (
     nograd_functions,
     is_discrete,
     log_of_base,
+    power_exponent_minus_one,
     replace_zero,
     resolve_order,
     tensordot_adjoint_0,
@@ -81,7 +82,7 @@ defjvp(anp.mod, lambda g, ans, x, y: broadcast(g, ans), lambda g, ans, x, y: -g 
 defjvp(anp.remainder, lambda g, ans, x, y: broadcast(g, ans), lambda g, ans, x, y: -g * anp.floor(x / y))
 defjvp(
     anp.power,
-    lambda g, ans, x, y: g * y * x ** anp.where(y, y - 1, 1.0),
+    lambda g, ans, x, y: g * y * x ** power_exponent_minus_one(x, y),
     lambda g, ans, x, y: g * log_of_base(x, ans) * ans,
 )
 defjvp(anp.arctan2, lambda g, ans, x, y: g * y / (x**2 + y**2), lambda g, ans, x, y: g * -x / (x**2 + y**2))
